@@ -1056,3 +1056,221 @@ Proof. intros own n. reflexivity. Qed.
 
 Lemma chain_lookup_nil : forall n, chain_lookup [] n = None.
 Proof. reflexivity. Qed.
+
+(* ================================================================================================
+   Local types of a function: every declared name is visible in every local definition and in every
+   parameter type, wherever it is declared; the order of the declarations is irrelevant.
+   ================================================================================================ *)
+From Coq Require Import Permutation.
+
+Lemma do_with_loader_snd : forall (A : Type) (c : pctx) (l : lchain) (doer : pctx -> pctx * res A),
+  snd (do_with_loader c l doer) = snd (doer (mkCtx l)).
+Proof. intros A c l doer. unfold do_with_loader. destruct (doer (mkCtx l)) as [c' [a|p]]; reflexivity. Qed.
+
+Lemma existsb_str_in : forall (n : str) (names : list str), existsb (str_eqb n) names = true <-> In n names.
+Proof.
+  intros n names. rewrite existsb_exists. split.
+  - intros (x & Hin & He). apply str_eqb_eq in He. subst x. exact Hin.
+  - intros Hin. exists n. split; [exact Hin|apply str_eqb_refl].
+Qed.
+
+(* a declared local name resolves to its alias object whatever its position in the list of declarations *)
+Lemma local_ref_declared : forall (parents : lchain) (names : list str) (n : str),
+  In n names -> local_ref parents names n = Some (PAliasT n).
+Proof.
+  intros parents names n Hin. unfold local_ref.
+  destruct (chain_lookup parents n); [reflexivity|].
+  apply existsb_str_in in Hin. rewrite Hin. reflexivity.
+Qed.
+
+Lemma local_ref_unknown : forall (names : list str) (n : str), ~ In n names -> local_ref [] names n = None.
+Proof.
+  intros names n Hn. unfold local_ref. cbn [chain_lookup].
+  destruct (existsb (str_eqb n) names) eqn:E; [|reflexivity].
+  apply existsb_str_in in E. contradiction.
+Qed.
+
+Lemma alias_lookup_in : forall (env : scope) (n : str) (t : pty),
+  NoDup (map fst env) -> In (n, t) env -> alias_lookup env n = Some t.
+Proof.
+  induction env as [|[m u] r IH]; intros n t Hnd Hin; [destruct Hin|].
+  cbn [alias_lookup]. cbn [map fst] in Hnd. inversion Hnd as [|x l Hnotin Hnd']; subst x l.
+  destruct Hin as [He|Hin].
+  - inversion He; subst m u. rewrite str_eqb_refl. reflexivity.
+  - destruct (str_eqb m n) eqn:E.
+    + apply str_eqb_eq in E. subst m. exfalso. apply Hnotin.
+      change n with (fst (n, t)). apply in_map. exact Hin.
+    + apply IH; assumption.
+Qed.
+
+Lemma alias_lookup_some_in : forall (env : scope) (n : str) (t : pty), alias_lookup env n = Some t -> In (n, t) env.
+Proof.
+  induction env as [|[m u] r IH]; intros n t H; [discriminate H|].
+  cbn [alias_lookup] in H. destruct (str_eqb m n) eqn:E.
+  - apply str_eqb_eq in E. subst m. inversion H; subst u. left. reflexivity.
+  - right. apply IH. exact H.
+Qed.
+
+Lemma alias_lookup_none : forall (env : scope) (n : str), alias_lookup env n = None -> ~ In n (map fst env).
+Proof.
+  induction env as [|[m u] r IH]; intros n H Hin; [destruct Hin|].
+  cbn [alias_lookup] in H. destruct (str_eqb m n) eqn:E; [discriminate H|].
+  cbn [map fst] in Hin. destruct Hin as [He|Hin].
+  - subst m. rewrite str_eqb_refl in E. discriminate E.
+  - exact (IH n H Hin).
+Qed.
+
+Lemma bind_locals_names : forall parents decls, map fst (fst (bind_locals parents decls)) = map fst decls.
+Proof. intros parents decls. unfold bind_locals. cbn [fst]. rewrite map_map. reflexivity. Qed.
+
+(* the local loader holds, under every declared name, the declared expression with EVERY local name resolved *)
+Lemma bind_locals_entry : forall parents decls n t,
+  NoDup (map fst decls) -> In (n, t) decls ->
+  alias_lookup (fst (bind_locals parents decls)) n = Some (subst_with (local_ref parents (map fst decls)) t).
+Proof.
+  intros parents decls n t Hnd Hin. apply alias_lookup_in.
+  - rewrite bind_locals_names. exact Hnd.
+  - unfold bind_locals. cbn [fst].
+    change (n, subst_with (local_ref parents (map fst decls)) t)
+      with ((fun d : str * pty => (fst d, subst_with (local_ref parents (map fst decls)) (snd d))) (n, t)).
+    apply in_map. exact Hin.
+Qed.
+
+(* ---- extensionality in the lookup ------------------------------------------------------------------------ *)
+Lemma subst_with_ext : forall (look look' : str -> option pty), (forall n, look n = look' n) ->
+  forall t, subst_with look t = subst_with look' t.
+Proof.
+  intros look look' H. fix IH 1. intros t. destruct t; cbn [subst_with]; try reflexivity.
+  - f_equal. apply IH.
+  - f_equal. revert ts. fix IHts 1. intros ts. destruct ts as [|a r]; [reflexivity|].
+    f_equal; [apply IH|apply IHts].
+  - f_equal. apply IH.
+  - rewrite H. reflexivity.
+Qed.
+
+Lemma subst_op_with_ext : forall (look look' : str -> option pty), (forall n, look n = look' n) ->
+  forall o : bop pty N, subst_op_with look o = subst_op_with look' o.
+Proof.
+  intros look look' H o. destruct o; cbn [subst_op_with]; try reflexivity; f_equal; apply subst_with_ext; exact H.
+Qed.
+
+Lemma resolve_dispatches_ext : forall (look look' : str -> option pty), (forall n, look n = look' n) ->
+  forall dss, resolve_dispatches look dss = resolve_dispatches look' dss.
+Proof.
+  intros look look' H dss. unfold resolve_dispatches.
+  replace (map (map (subst_op_with look')) dss) with (map (map (subst_op_with (bty:=N) look)) dss); [reflexivity|].
+  apply map_ext. intros ops. apply map_ext. intros o. apply subst_op_with_ext. exact H.
+Qed.
+
+Lemma any_opt_ext : forall (A : Type) (f g : A -> option bool) (l : list A), (forall a, f a = g a) -> any_opt f l = any_opt g l.
+Proof. intros A f g l H. induction l as [|a r IH]; cbn [any_opt]; [reflexivity|]. rewrite H, IH. reflexivity. Qed.
+
+Lemma all_opt_ext : forall (A : Type) (f g : A -> option bool) (l : list A), (forall a, f a = g a) -> all_opt f l = all_opt g l.
+Proof. intros A f g l H. induction l as [|a r IH]; cbn [all_opt]; [reflexivity|]. rewrite H, IH. reflexivity. Qed.
+
+Lemma pinst_in_ext : forall (look look' : str -> option pty), (forall n, look n = look' n) ->
+  forall fuel seen t v, pinst_in look fuel seen t v = pinst_in look' fuel seen t v.
+Proof.
+  intros look look' H. induction fuel as [|f IH]; intros seen t v; [reflexivity|].
+  cbn [pinst_in]. destruct t; try reflexivity.
+  - destruct v; try reflexivity; apply IH.
+  - apply any_opt_ext. intros t'. apply IH.
+  - destruct v; try reflexivity. destruct (in_range lo hi (Z.of_nat (length vs))); [|reflexivity].
+    apply all_opt_ext. intros x. apply IH.
+  - rewrite H. destruct (existsb (str_eqb name) seen); [reflexivity|].
+    destruct (look' name); [apply IH|reflexivity].
+Qed.
+
+(* ---- the order of the local type declarations is irrelevant ----------------------------------------------- *)
+Lemma local_ref_perm : forall parents (names names' : list str), Permutation names names' ->
+  forall n, local_ref parents names n = local_ref parents names' n.
+Proof.
+  intros parents names names' P n. unfold local_ref. destruct (chain_lookup parents n); [reflexivity|].
+  destruct (existsb (str_eqb n) names) eqn:E; destruct (existsb (str_eqb n) names') eqn:E'; try reflexivity; exfalso.
+  - apply existsb_str_in in E. apply (Permutation_in _ P) in E. apply existsb_str_in in E. congruence.
+  - apply existsb_str_in in E'. apply (Permutation_in _ (Permutation_sym P)) in E'. apply existsb_str_in in E'. congruence.
+Qed.
+
+Lemma forallb_perm : forall (A : Type) (f : A -> bool) (l l' : list A), Permutation l l' -> forallb f l = forallb f l'.
+Proof.
+  intros A f l l' P. induction P as [|x l l' P IH|x y l|l l' l'' P1 IH1 P2 IH2]; cbn [forallb].
+  - reflexivity.
+  - rewrite IH. reflexivity.
+  - destruct (f x), (f y); reflexivity.
+  - congruence.
+Qed.
+
+Lemma bind_locals_perm : forall parents decls decls', Permutation decls decls' ->
+  Permutation (fst (bind_locals parents decls)) (fst (bind_locals parents decls')) /\
+  snd (bind_locals parents decls) = snd (bind_locals parents decls').
+Proof.
+  intros parents decls decls' P.
+  assert (Pn : Permutation (map fst decls) (map fst decls')) by (apply Permutation_map; exact P).
+  assert (E : map (fun d : str * pty => (fst d, subst_with (local_ref parents (map fst decls')) (snd d))) decls'
+            = map (fun d : str * pty => (fst d, subst_with (local_ref parents (map fst decls)) (snd d))) decls').
+  { apply map_ext. intros d. f_equal. apply subst_with_ext. intros n. symmetry. apply local_ref_perm. exact Pn. }
+  unfold bind_locals. cbn [fst snd]. rewrite E. split.
+  - apply Permutation_map. exact P.
+  - apply forallb_perm. apply Permutation_map. exact P.
+Qed.
+
+Lemma alias_lookup_perm : forall (env env' : scope), Permutation env env' -> NoDup (map fst env) ->
+  forall n, alias_lookup env n = alias_lookup env' n.
+Proof.
+  intros env env' P Hnd n.
+  assert (Hnd' : NoDup (map fst env')).
+  { apply (Permutation_NoDup (l:=map fst env)); [apply Permutation_map; exact P|exact Hnd]. }
+  destruct (alias_lookup env n) as [t|] eqn:E.
+  - apply alias_lookup_some_in in E. apply (Permutation_in _ P) in E. symmetry. apply alias_lookup_in; assumption.
+  - apply alias_lookup_none in E. destruct (alias_lookup env' n) as [t|] eqn:E'; [|reflexivity].
+    exfalso. apply E. apply alias_lookup_some_in in E'. apply (Permutation_in _ (Permutation_sym P)) in E'.
+    change n with (fst (n, t)). apply in_map. exact E'.
+Qed.
+
+Lemma perm_nil_iff : forall (A : Type) (l l' : list A), Permutation l l' -> (l = [] <-> l' = []).
+Proof.
+  intros A l l' P. split; intros H; subst.
+  - apply Permutation_nil. exact P.
+  - apply Permutation_nil. apply Permutation_sym. exact P.
+Qed.
+
+Lemma resolve_fn_snd_locals : forall c d r dss,
+  snd (resolve_fn c (d :: r, dss)) =
+  match run_all dss 0 with
+  | inl e => inl e
+  | inr _ => match snd (resolve_locals (c_loader c) (d :: r) dss) with Ok ds => inr ds | Panic p => inl (0%nat, p) end
+  end.
+Proof.
+  intros c d r dss. unfold resolve_fn. destruct (run_all dss 0) as [e|ss]; [reflexivity|].
+  rewrite <- (do_with_loader_snd _ c ([] :: c_loader c) (fun _ => resolve_locals (c_loader c) (d :: r) dss)).
+  destruct (do_with_loader c ([] :: c_loader c) (fun _ => resolve_locals (c_loader c) (d :: r) dss)) as [c1 r1].
+  reflexivity.
+Qed.
+
+(* Two functions that differ only in the ORDER of their local type declarations resolve to the same dispatches,
+   and their types have the same instances. *)
+Theorem local_types_order_irrelevant : forall (c : pctx) (decls decls' : list (str * pty)) (dss : list (list (bop pty N))),
+  Permutation decls decls' -> NoDup (map fst decls) ->
+  snd (resolve_fn c (decls, dss)) = snd (resolve_fn c (decls', dss)) /\
+  (forall fuel seen t v, pinst_in (fn_look c (decls, dss)) fuel seen t v = pinst_in (fn_look c (decls', dss)) fuel seen t v).
+Proof.
+  intros c decls decls' dss P Hnd.
+  destruct (bind_locals_perm (c_loader c) decls decls' P) as [Pown Eok].
+  assert (Pn : Permutation (map fst decls) (map fst decls')) by (apply Permutation_map; exact P).
+  split.
+  - destruct decls as [|d r]; [apply Permutation_nil in P; subst decls'; reflexivity|].
+    destruct decls' as [|d' r']; [apply Permutation_sym, Permutation_nil in P; discriminate P|].
+    rewrite !resolve_fn_snd_locals. destruct (run_all dss 0) as [e|ss]; [reflexivity|].
+    assert (E : snd (resolve_locals (c_loader c) (d :: r) dss) = snd (resolve_locals (c_loader c) (d' :: r') dss)).
+    { unfold resolve_locals.
+      destruct (bind_locals (c_loader c) (d :: r)) as [own ok].
+      destruct (bind_locals (c_loader c) (d' :: r')) as [own' ok']. cbn [snd] in Eok. subst ok'.
+      destruct ok; cbn [snd]; [|reflexivity].
+      apply resolve_dispatches_ext. intros n. apply local_ref_perm. exact Pn. }
+    rewrite E. reflexivity.
+  - intros fuel seen t v. apply pinst_in_ext. intros n. unfold fn_look. cbn [fst].
+    destruct decls as [|d r]; [apply Permutation_nil in P; subst decls'; reflexivity|].
+    destruct decls' as [|d' r']; [apply Permutation_sym, Permutation_nil in P; discriminate P|].
+    cbn [chain_lookup]. destruct (chain_lookup (c_loader c) n); [reflexivity|].
+    apply alias_lookup_perm; [exact Pown|]. rewrite bind_locals_names. exact Hnd.
+Qed.
